@@ -413,8 +413,17 @@ def rule_column_order(F, ev, R, config, rule="R-COLUMN-ORDER"):
                     continue
                 v = ev2.rvalue(env, st["rv"], (bi, si))
                 pay = v[3][0][1] if v[0] == "agg" and v[2] == "Ok" and v[3] else (v[1] if v[0] == "opt" else None)
-                if pay is None or pay[0] != "call" or tab.alloc_dims(pay) is None:
+                if pay is None:
                     continue
+                # filled = written into after its allocation, or built from the results of the checked evaluations
+                if pay[0] == "phi" and any(contains(x, lambda y: y[0] == "loopback") for x in pay[1]):
+                    continue   # the value after a loop over the functions (written into in every iteration)
+                alts_p = [x for x in (pay[1] if pay[0] == "phi" else (pay,)) if x[0] not in ("loopback", "unreachable")]
+                unfilled = [x for x in alts_p if x[0] != "mutated" and not contains(x, lambda y: y[0] == "mutated" or (
+                    y[0] == "call" and (y[1] == hcid or y[1] in ("std::ops::Fn::call", "std::ops::FnMut::call_mut", "std::ops::FnOnce::call_once"))))]
+                if not unfilled:
+                    continue
+                pay = unfilled[0]
                 rels, _raw = g.relations_at(bi)
                 nofn = False
                 for rel in rels:
@@ -423,7 +432,7 @@ def rule_column_order(F, ev, R, config, rule="R-COLUMN-ORDER"):
                 if not nofn:
                     bare.append((bi, pay))
             R.add(rule, config, b.key, "Ok returns the filled matrix", not bare, "" if not bare else
-                  "a success return hands out the freshly allocated `%s` — no function is evaluated (and checked) on this path" % short(bare[0][1])[:100], b.j["span"])
+                  "a success return hands out `%s`, which is neither written into nor built from checked evaluations — no function is evaluated on this path" % short(bare[0][1])[:100], b.j["span"])
             cw = [w for w in tab.column_writes(cn, effs) if nosite(w.D) in rets]
             if not cw:
                 # the checking helper may write the function value straight into the column it is given, element by
